@@ -63,6 +63,10 @@ def gen_spec(rnd, dotted=None):
     if rnd.random() < 0.12:
         c = rnd.choice(comps)
         rel.insert(rnd.randint(0, len(rel)), (c, c))  # an arrow from a component to itself is an arrow that is drawn
+    if rel and rnd.random() < 0.15:
+        # the same arrow drawn twice (possibly in two different spellings): still one dependency
+        for _ in range(rnd.randint(1, 2)):
+            rel.insert(rnd.randint(0, len(rel)), rnd.choice(rel))
     decl = {}
     for i, c in enumerate(comps):
         form = rnd.choice(rpuml.DECL_FORMS)
@@ -120,6 +124,9 @@ def gen_spec(rnd, dotted=None):
     return spec
 
 
+_SHARED_PARSER = []
+
+
 def write_and_parse(spec, acc, case=None, path=None, keep_mtime_of=None):
     """spec["newline"] (optional): line ending the file is saved with.  path / keep_mtime_of: the diagram is written to
     a path that held another diagram before, and the file's timestamps are set back to those of that earlier file
@@ -143,8 +150,16 @@ def write_and_parse(spec, acc, case=None, path=None, keep_mtime_of=None):
     register_puml(path, comps, rel, must_reject)
     HUB.case = case or {"kind": "diagram", "spec": spec}
     res = None
+    if len(spec["relation"]) != len(set(map(tuple, spec["relation"]))):
+        acc.count("diagrams_with_an_arrow_drawn_twice")
+    # a third of the diagrams are parsed by ONE long-lived parser object (a fixture that keeps its PumlParser)
+    if not _SHARED_PARSER:
+        _SHARED_PARSER.append(PumlParser())
+    parser = _SHARED_PARSER[0] if len(text) % 3 == 0 else PumlParser()
+    if parser is _SHARED_PARSER[0]:
+        acc.count("diagrams_parsed_by_a_long_lived_parser_object")
     try:
-        res = PumlParser().parse(path)
+        res = parser.parse(path)
     except Exception:  # noqa: BLE001  (judged by the monitor)
         pass
     acc.evaluated()
@@ -287,6 +302,9 @@ def replay(case, acc):
 
 def floors(acc, tier):
     why = []
+    for c, n in (("diagrams_with_an_arrow_drawn_twice", 50), ("diagrams_parsed_by_a_long_lived_parser_object", 200), ("parse_results_read_by_subscript", 500)):
+        if acc.counters[c] < n:
+            why.append(f"{c}: only {acc.counters[c]}")
     for name, forms in (("decl_form", rpuml.DECL_FORMS), ("arrow_form", rpuml.ARROWS), ("ref_form", rpuml.REF_FORMS)):
         for f in forms:
             if acc.hists.get(name, {}).get(f, 0) == 0:
